@@ -235,6 +235,8 @@ func describeFields(fs []zapcore.Field) []string {
 				continue
 			}
 			out = append(out, f.Key+"?")
+		case zapcore.SkipType:
+			// a no-op field: retained by observers, encodes nothing, carries no information
 		case zapcore.NamespaceType:
 			out = append(out, f.Key+"{")
 		case zapcore.Int64Type:
